@@ -17,6 +17,10 @@ LPS = {
     "lts":  ["LinTS", {"alpha": 1e-9, "l2_lambda": 1}],
     "lts1": ["LinTS", {"alpha": 1, "l2_lambda": 1}],
 }
+# linear policies with per-arm standardisation (scale=True); used by the checks that name them explicitly
+LPS["lg_s"] = ["LinGreedy", {"epsilon": 0, "l2_lambda": 1, "scale": True}]
+LPS["lucb_s"] = ["LinUCB", {"alpha": 1, "l2_lambda": 1, "scale": True}]
+SCALED_LPS = ("lg_s", "lucb_s")
 DETERMINISTIC_LPS = ("eg0", "ucb", "lg", "lucb")
 LINEAR_LPS = ("lg", "lucb", "lts", "lts1")
 CONTEXT_FREE_LPS = ("eg0", "eg5", "ucb", "sm", "pop", "ts", "tsb", "rnd")
@@ -34,12 +38,14 @@ NPS = {
 }
 
 
-def combos(lps=None, nps=None, lints1=False):
+def combos(lps=None, nps=None, lints1=False, scaled=False):
     """Valid (lp name, np name) pairs.  TreeBandit only over EpsilonGreedy / UCB1 / Thompson.
     LinTS with alpha = 1 ('lts1') only on request (generator identities, DESIGN 3.2)."""
     out = []
     for ln in (lps or LPS):
         if ln == "lts1" and not lints1:
+            continue
+        if ln in SCALED_LPS and not (scaled or lps):
             continue
         for nn in (nps or NPS):
             if nn == "tree" and ln not in TREE_LPS:
